@@ -297,41 +297,61 @@ def costsOfSegment (nw : Network) (t : Tour) (s e : Nat) : R Nat := do
   let ns ← mapMR (fun i => do let n ← idxAt t.nodes i; pure (nw.nodeCost n)) ((List.range (e - s)).map (· + s))
   pure (before + sumNat inner + after + sumNat ns)
 
+def costBeforeNew (nw : Network) (nodes newNodes : List Nat) (s : Nat) : R Nat :=
+  if s == 0 then pure 0 else do
+    let a ← idxAt nodes (s - 1); let b ← idxAt newNodes 0; pure (nw.linkCost a b)
+
+def costAfterNew (nw : Network) (nodes newNodes : List Nat) (e : Nat) : R Nat :=
+  if e ≥ nodes.length then pure 0 else do
+    let a ← idxAt newNodes (newNodes.length - 1); let b ← idxAt nodes e; pure (nw.linkCost a b)
+
 /-- `costs_of_new_nodes` -/
 def costsOfNewNodes (nw : Network) (t : Tour) (newNodes : List Nat) (s e : Nat) : R Nat := do
-  let before ← if s == 0 then pure 0 else do
-      let a ← idxAt t.nodes (s - 1); let b ← idxAt newNodes 0; pure (nw.linkCost a b)
+  let before ← costBeforeNew nw t.nodes newNodes s
   let inner := sumNat ((pairs newNodes).map (fun p => nw.linkCost p.1 p.2))
-  let after ← if e ≥ t.nodes.length then pure 0 else do
-      let a ← idxAt newNodes (newNodes.length - 1); let b ← idxAt t.nodes e; pure (nw.linkCost a b)
+  let after ← costAfterNew nw t.nodes newNodes e
   pure (before + inner + after + sumNat (newNodes.map nw.nodeCost))
 
+/-- the link in front of position `s` when nothing is removed (zero at both ends) -/
+def dhEmptySeg (nw : Network) (nodes : List Nat) (s : Nat) : R Dist :=
+  if s == 0 || s == nodes.length then pure Dist.zero else do
+    let a ← idxAt nodes (s - 1); let b ← idxAt nodes s
+    pure (nw.deadHeadDistanceBetween a b)
+
+def dhBeforeSeg (nw : Network) (nodes : List Nat) (s : Nat) : R Dist :=
+  if s == 0 then pure Dist.zero else do
+    let a ← idxAt nodes (s - 1); let b ← idxAt nodes s
+    pure (nw.deadHeadDistanceBetween a b)
+
+def dhAfterSeg (nw : Network) (nodes : List Nat) (e : Nat) : R Dist :=
+  if e == nodes.length then pure Dist.zero else do
+    let a ← idxAt nodes (e - 1); let b ← idxAt nodes e
+    pure (nw.deadHeadDistanceBetween a b)
+
 /-- `dead_head_distance_of_segment` -/
-def dhDistOfSegment (nw : Network) (t : Tour) (s e : Nat) : R Dist := do
-  if s ≥ e then
-    if s == 0 || s == t.nodes.length then pure Dist.zero else do
-      let a ← idxAt t.nodes (s - 1); let b ← idxAt t.nodes s
-      pure (nw.deadHeadDistanceBetween a b)
-  else
-  let before ← if s == 0 then pure Dist.zero else do
-      let a ← idxAt t.nodes (s - 1); let b ← idxAt t.nodes s
-      pure (nw.deadHeadDistanceBetween a b)
+def dhDistOfSegment (nw : Network) (t : Tour) (s e : Nat) : R Dist :=
+  if s ≥ e then dhEmptySeg nw t.nodes s else do
+  let before ← dhBeforeSeg nw t.nodes s
   let sl ← slice t.nodes s e
   let inner := sumDist ((pairs sl).map (fun p => nw.deadHeadDistanceBetween p.1 p.2))
-  let after ← if e == t.nodes.length then pure Dist.zero else do
-      let a ← idxAt t.nodes (e - 1); let b ← idxAt t.nodes e
-      pure (nw.deadHeadDistanceBetween a b)
+  let after ← dhAfterSeg nw t.nodes e
   pure (Dist.add (Dist.add before inner) after)
+
+def dhBeforeNew (nw : Network) (nodes newNodes : List Nat) (s : Nat) : R Dist :=
+  if s == 0 then pure Dist.zero else do
+    let a ← idxAt nodes (s - 1); let b ← idxAt newNodes 0
+    pure (nw.deadHeadDistanceBetween a b)
+
+def dhAfterNew (nw : Network) (nodes newNodes : List Nat) (e : Nat) : R Dist :=
+  if e ≥ nodes.length then pure Dist.zero else do
+    let a ← idxAt newNodes (newNodes.length - 1); let b ← idxAt nodes e
+    pure (nw.deadHeadDistanceBetween a b)
 
 /-- `dead_head_distance_of_new_nodes` -/
 def dhDistOfNewNodes (nw : Network) (t : Tour) (newNodes : List Nat) (s e : Nat) : R Dist := do
-  let before ← if s == 0 then pure Dist.zero else do
-      let a ← idxAt t.nodes (s - 1); let b ← idxAt newNodes 0
-      pure (nw.deadHeadDistanceBetween a b)
+  let before ← dhBeforeNew nw t.nodes newNodes s
   let inner := sumDist ((pairs newNodes).map (fun p => nw.deadHeadDistanceBetween p.1 p.2))
-  let after ← if e ≥ t.nodes.length then pure Dist.zero else do
-      let a ← idxAt newNodes (newNodes.length - 1); let b ← idxAt t.nodes e
-      pure (nw.deadHeadDistanceBetween a b)
+  let after ← dhAfterNew nw t.nodes newNodes e
   pure (Dist.add (Dist.add before inner) after)
 
 def subNat (a b : Nat) (site : String) : R Nat :=
@@ -368,6 +388,17 @@ def replaceEndDepot (nw : Network) (t : Tour) (d : Nat) : R Tour := do
   pure { t with nodes, dhDist := dh,
                 costs := c + nw.secOrPlanning (nw.deadHeadTimeBetween lnd d) * nw.cDH }
 
+/-- dead-head distance of the new link closing the gap `[s, e]` (zero when the gap touches an end) -/
+def gapDist (nw : Network) (nodes : List Nat) (s e : Nat) : R Dist :=
+  if s == 0 || e == nodes.length - 1 then pure Dist.zero else do
+    let x ← idxAt nodes (s - 1); let y ← idxAt nodes (e + 1)
+    pure (nw.deadHeadDistanceBetween x y)
+
+def gapCost (nw : Network) (nodes : List Nat) (s e : Nat) : R Nat :=
+  if s == 0 || e == nodes.length - 1 then pure 0 else do
+    let x ← idxAt nodes (s - 1); let y ← idxAt nodes (e + 1)
+    pure (nw.linkCost x y)
+
 /-- `Tour::remove`: `(shrunk tour or none, removed path)` -/
 def remove (nw : Network) (t : Tour) (a b : Nat) : R (Option Tour × List Nat) := do
   let s ← t.positionOf a
@@ -378,15 +409,11 @@ def remove (nw : Network) (t : Tour) (a b : Nat) : R (Option Tour × List Nat) :
   let sd ← Dist.sub t.serviceDist (nw.serviceDistOf removed)
   let seg ← dhDistOfSegment nw t s (e + 1)
   let dh0 ← Dist.sub t.dhDist seg
-  let gapD ← if s == 0 || e == t.nodes.length - 1 then pure Dist.zero else do
-      let x ← idxAt t.nodes (s - 1); let y ← idxAt t.nodes (e + 1)
-      pure (nw.deadHeadDistanceBetween x y)
+  let gapD ← gapDist nw t.nodes s e
   let dh1 := Dist.add dh0 gapD
   let cseg ← costsOfSegment nw t s (e + 1)
   let c0 ← subNat t.costs cseg "costs underflow"
-  let gapC ← if s == 0 || e == t.nodes.length - 1 then pure 0 else do
-      let x ← idxAt t.nodes (s - 1); let y ← idxAt t.nodes (e + 1)
-      pure (nw.linkCost x y)
+  let gapC ← gapCost nw t.nodes s e
   let tourNodes := t.nodes.take s ++ t.nodes.drop (e + 1)
   -- repaired code (finding F8): recompute when the cached value is Infinity
   let dh := if t.dhDist == .inf then nw.dhDistOf tourNodes else dh1
